@@ -17,6 +17,35 @@ PROPKA_TYPE = {"ASP": "COO", "GLU": "COO", "HIS": "HIS", "CYS": "CYS", "TYR": "T
 STUB = {"table": None, "installed": False, "orig": None, "titration_log": []}
 
 
+def _has_ligand(biomolecule):
+    from pdb2pqr import aa, na
+    return any(not isinstance(r, (aa.Amino, na.Nucleic, aa.WAT)) for r in biomolecule.residues)
+
+
+class _Timeout(Exception):
+    pass
+
+
+@contextlib.contextmanager
+def _time_limit(seconds):
+    """Wall-clock guard around the real PROPKA call (main thread only; elsewhere no limit)."""
+    import signal
+    import threading
+    if threading.current_thread() is not threading.main_thread() or not hasattr(signal, "setitimer"):
+        yield
+        return
+
+    def handler(signum, frame):
+        raise _Timeout()
+    old = signal.signal(signal.SIGALRM, handler)
+    signal.setitimer(signal.ITIMER_REAL, seconds)
+    try:
+        yield
+    finally:
+        signal.setitimer(signal.ITIMER_REAL, 0)
+        signal.signal(signal.SIGALRM, old)
+
+
 def install():
     if STUB["installed"]:
         return
@@ -30,11 +59,16 @@ def install():
             return rows, text
         # The stub replaces the pKa *values*, not the procedure: the real routine still runs first (it serialises the
         # structure for PROPKA - a step of the pipeline with its own effects) and only its table is discarded.
-        if os.environ.get("VERIF_PKASTUB_REAL", "1") != "0":
+        # Not with hetero groups other than water: PROPKA's own ligand typing (ring search) is exponential on generated
+        # ligands and would hang the run; and never for more than 30 s.
+        if os.environ.get("VERIF_PKASTUB_REAL", "1") != "0" and not _has_ligand(biomolecule):
             try:
-                STUB["orig"](args, biomolecule)
+                with _time_limit(30):
+                    STUB["orig"](args, biomolecule)
                 STUB["real_calls"] = STUB.get("real_calls", 0) + 1
-            except Exception:  # noqa: BLE001  (PROPKA cannot digest every generated structure; the table is served anyway)
+            except BaseException as e:  # noqa: BLE001  (PROPKA cannot digest every generated structure; the table is served anyway)
+                if isinstance(e, (KeyboardInterrupt, SystemExit)):
+                    raise
                 STUB["real_failures"] = STUB.get("real_failures", 0) + 1
         return [dict(r) for r in STUB["table"]], "stubbed pKa table"
 
